@@ -35,12 +35,18 @@ def run(ctx):
     # oracle: the statement itself on ahbicht
     n_nontrivial, seen = 0, set()
     for (t, rho), (tag, v) in zip(cases, raws):
-        if tag != "ok" or not (exprs.dom(t) and exprs.valid(t)):
+        if not (exprs.dom(t) and exprs.valid(t)):
             continue
         key = (exprs.show(t), tuple(sorted(rho.items())))
         if key in seen:
             continue
         seen.add(key)
+        if tag != "ok":
+            # a valid in-domain expression has a collected expression (or none) -- its evaluation does not raise
+            want0 = exprs.rd(t, {k: V[s] for k, s in rho.items()}, V)
+            ctx.fail(f"raises|{key}", {"expression": key[0], "rc": rho}, f"the reading {want0} as collected expression", f"raises {v}",
+                     "oracle: a valid expression yields a collected format-constraint expression (or none), its evaluation does not raise")
+            continue
         fx = getattr(v, "format_constraints_expression", None)
         from ahbicht.models.condition_nodes import UnevaluatedFormatConstraint
 
